@@ -232,6 +232,7 @@ type gOp struct {
 	DtMs  int64    `json:"dt,omitempty"`    // advance
 	Topic string   `json:"t,omitempty"`     // commit/fetch
 	Part  int32    `json:"p,omitempty"`
+	G     int      `json:"g,omitempty"`     // which group of a pair sharing one coordinator (gRunPair)
 }
 
 type gIdent struct {
@@ -1035,18 +1036,85 @@ func gGenOps(rng *rand.Rand, p gProfile, cfg gConfig) []gOp {
 func gRunCase(t *testing.T, cfg gConfig, ops []gOp, offBase int64, setup func(w *gWorld)) *gWorld {
 	var world *gWorld
 	synctest.Test(t, func(t *testing.T) {
-		store := metadata.NewInMemoryStore(cfg.metadata())
-		w := newGWorld(t, cfg, store, true, offBase)
-		world = w
-		if setup != nil {
-			setup(w)
-		}
-		for _, op := range ops {
-			w.step(op)
-		}
-		w.stopAll()
+		world = gRunCaseInBubble(t, cfg, ops, offBase, setup)
 	})
 	return world
+}
+
+// sibling is a second group served by the SAME coordinator and store as w:
+// own members, own bookkeeping, own observers.
+func (w *gWorld) sibling(cfg gConfig) *gWorld {
+	s := &gWorld{t: w.t, cfg: cfg, virtual: w.virtual, rec: w.rec, coord: w.coord, tick0: w.tick0, start: w.start,
+		ids: map[string]*gIDInfo{}, offBase: w.offBase + 50000, name: "sibling"}
+	for i := 0; i < cfg.M; i++ {
+		s.slots = append(s.slots, &gSlot{})
+	}
+	s.prev = s.truth()
+	return s
+}
+
+// gRunPair runs two groups on ONE coordinator inside one bubble; ops carry G=0/1.
+// Time advances are probed for both groups. No failover in pair mode.
+func gRunPair(t *testing.T, cfgs [2]gConfig, ops []gOp, offBase int64, setup func(i int, w *gWorld)) [2]*gWorld {
+	var ws [2]*gWorld
+	synctest.Test(t, func(t *testing.T) {
+		store := metadata.NewInMemoryStore(cfgs[0].metadata())
+		ws[0] = newGWorld(t, cfgs[0], store, true, offBase)
+		ws[1] = ws[0].sibling(cfgs[1])
+		for i := range ws {
+			if setup != nil {
+				setup(i, ws[i])
+			}
+		}
+		for _, op := range ops {
+			switch op.K {
+			case "advance":
+				gAdvance(time.Duration(op.DtMs)*time.Millisecond, ws[0], ws[1])
+			case "failover":
+			default:
+				ws[op.G].step(op)
+			}
+		}
+		ws[0].stopAll()
+	})
+	return ws
+}
+
+// gGenPair draws two configurations over the same topics and one interleaved op list.
+func gGenPair(rng *rand.Rand, p gProfile, name string) ([2]gConfig, []gOp) {
+	a := gGenConfig(rng, p, name+"x")
+	b := gGenConfig(rng, p, name+"y")
+	b.Topics, b.Universe, b.CleanupMs = a.Topics, a.Universe, a.CleanupMs
+	p.WFailover = 0
+	oa, ob := gGenOps(rng, p, a), gGenOps(rng, p, b)
+	for i := range ob {
+		ob[i].G = 1
+	}
+	var ops []gOp
+	for len(oa) > 0 || len(ob) > 0 {
+		if len(ob) == 0 || (len(oa) > 0 && rng.Intn(2) == 0) {
+			ops, oa = append(ops, oa[0]), oa[1:]
+		} else {
+			ops, ob = append(ops, ob[0]), ob[1:]
+		}
+	}
+	return [2]gConfig{a, b}, ops
+}
+
+// gRunCaseInBubble runs one scenario in the bubble the caller is already in
+// (several independent scenarios may share a bubble: each has its own store,
+// coordinator and clock origin, and its coordinators are stopped at the end).
+func gRunCaseInBubble(t testing.TB, cfg gConfig, ops []gOp, offBase int64, setup func(w *gWorld)) *gWorld {
+	store := metadata.NewInMemoryStore(cfg.metadata())
+	w := newGWorld(t, cfg, store, true, offBase)
+	if setup != nil {
+		setup(w)
+	}
+	for _, op := range ops {
+		w.step(op)
+	}
+	w.stopAll()
+	return w
 }
 
 // gWitness renders a scenario for a violation replay / evidence sample.
